@@ -251,14 +251,17 @@ registers are not checked either (a register above q + 1 indexes past the estima
 `extern "C"` function, abort).
 -/
 theorem hll_alloc_unbounded :
-    Gen.hllChecksHeader = false ∧ Gen.hllChecksRegisters = false ∧
-    (hllParse (hllHeader 40 24)).2 = 2 ^ 40 ∧ (hllHeader 40 24).length = 7 ∧
+    (hllParseWith false false (hllHeader 40 24)).2 = 2 ^ 40 ∧ (hllHeader 40 24).length = 7 ∧
     (hllParseWith true true (hllHeader 40 24)).1.toOption = none ∧
-    -- a register of 200 with q = 60 is accepted today, refused by the repaired variant
-    (hllParse (hllHeader 4 60 ++ List.replicate 15 0 ++ [200])).1.toOption.map (·.registers.getLast?) = some (some 200) ∧
+    -- a register of 200 with q = 60 is accepted by the unchecked variant, refused by the repaired one
+    (hllParseWith false false (hllHeader 4 60 ++ List.replicate 15 0 ++ [200])).1.toOption.map (·.registers.getLast?) = some (some 200) ∧
     (hllParseWith true true (hllHeader 4 60 ++ List.replicate 15 0 ++ [200])).1.toOption = none ∧
     (hllParseWith true true (hllHeader 4 60 ++ List.replicate 16 3)).1.toOption.map (·.p) = some 4 := by
   decide +kernel
+
+/-- the current source (re-read by the translator on every run) has both checks (fix of C20.8); reverting either
+    makes this obligation fail, and the stream then finds the 7-byte header that aborts the process -/
+theorem hll_reader_current : Gen.hllChecksHeader = true ∧ Gen.hllChecksRegisters = true := by decide
 
 /-- **zip members**: the current source reads a member into a buffer that grows with the data (re-read by the
     translator on every run), so what it requests is bounded by what the member really holds, whatever size the zip
